@@ -8,16 +8,29 @@ use crate::report::{Failure, Run, Stats};
 use serde_json::json;
 
 fn mask_lines(lua: &[u8]) -> Vec<u8> {
+    // the message of a reached `<!>` names the source line: every run of digits inside the string literal handed
+    // to __CRASH is masked, whatever the wording of the message
     let s = String::from_utf8_lossy(lua);
     let mut out = String::with_capacity(s.len());
-    let pat = "Reached unreachable code on line ";
+    let pat = "__CRASH(\"";
     let mut rest = s.as_ref();
     while let Some(i) = rest.find(pat) {
         out.push_str(&rest[..i + pat.len()]);
         rest = &rest[i + pat.len()..];
-        let digits = rest.chars().take_while(|c| c.is_ascii_digit()).count();
-        out.push('N');
-        rest = &rest[digits..];
+        let end = rest.find("\")").unwrap_or(rest.len());
+        let mut in_digits = false;
+        for c in rest[..end].chars() {
+            if c.is_ascii_digit() {
+                if !in_digits {
+                    out.push('N');
+                }
+                in_digits = true;
+            } else {
+                in_digits = false;
+                out.push(c);
+            }
+        }
+        rest = &rest[end..];
     }
     out.push_str(rest);
     out.into_bytes()
@@ -274,7 +287,7 @@ pub fn run(run: &mut Run) {
     run.rule = "base programs: the statement families (short sequences), the recursion templates, expressions of size <= 1 in five call-heavy contexts and a feature-dense sample; per base every combination of 4 layout noise patterns (blank lines, comment lines, trailing comments, tab indentation) x redundant parentheses x CRLF x line breaks inside brackets (after `(`, `[`, `,`; and continuation lines that start with a binary operator or `->`) x redundant parentheses around whole values, and every call-style vector over the first k call sites (f(a), f' a, a -> f(), a -> f') x trailing expression vs ret x loop do vs loop true do, plus every per-site choice of trailing expression vs `ret e` over the first 4 function bodies that end in an expression; non-trivial = the base compiles; distinct by base text".into();
     run.bounds = json!({"bases": bases.len(), "call_sites_varied": ksites});
     run.assumptions = vec![
-        "layout variants are compared byte for byte after masking the line number in `Reached unreachable code on line N`".into(),
+        "layout variants are compared byte for byte after masking digit runs inside the message string of `__CRASH(\"...\")` (the source line of a reached `<!>`)".into(),
         "sugar variants are compared after renumbering V<n>/L<n> names by first occurrence (the statement does not fix temporary numbering)".into(),
     ];
 }
